@@ -413,3 +413,158 @@ func runDeadcode(enc *json.Encoder, rng *rand.Rand, nfiles, size int, tmp string
 		enc.Encode(obs)
 	}
 }
+
+// kitchenSinkTyped: a type-correct file with (nearly) every construct, for engine-level runs.
+const kitchenSinkTyped = `// Package doc.
+package sink
+
+import (
+	"fmt" // line comment
+	str "strings"
+)
+
+// C doc.
+const (
+	ca, cb = 1, "s" // values
+	cc     float64 = 2
+	ct     = true
+)
+
+var va, vb int
+
+var x = 7
+
+// S doc.
+type S struct {
+	// field doc
+	A, B int    ` + "`json:\"a\"`" + ` // field comment
+	C    string ` + "`x`" + `
+	*T0
+	fmt.Stringer
+}
+
+type T0 struct{}
+
+type I interface {
+	M(a int, rest ...string) (r error)
+	fmt.Stringer
+}
+
+type Num interface {
+	~int | ~string
+}
+
+type G[T comparable, U any] struct {
+	k T
+	v map[T][]U
+}
+
+type (
+	A1 [3]int
+	F1 func(int, ...string) (int, error)
+	Ch chan<- int
+	P[T any] *T
+)
+
+func gen[T comparable, U any](a T, b U) (T, U) { return a, b }
+
+func (g *G[T, U]) m(x T) (res U) { return g.v[x][0] }
+
+func probe(n int) int { return n }
+
+func e1() {}
+func e2() {}
+func e3() {}
+
+// f doc.
+func f(foo int, ss ...string) (n int, err error) {
+	var g G[int, string]
+	_ = g
+	_ = gen[int, string]
+	_, _ = gen[int, string](1, "a")
+	_ = G[int, string]{k: 1}
+	_ = []int{1, 2, 3}[0:2:3]
+	_ = []int{1, foo}[:]
+	_ = map[string]int{"a": 1}["a"]
+	_ = (foo + 1) * -foo
+	_ = [...]int{1, 2}
+	p := &foo
+	*p++
+	x--
+	probe(1)
+	probe(foo)
+	probe(2)
+	fmt.Println(1, foo, x+1)
+	va, vb = vb, va
+	var e interface{} = foo
+	if v, ok := e.(int); ok && v > 0 {
+		n = v
+	} else if ct {
+		n = 1
+		probe(3)
+	} else {
+		n = 2
+		probe(4)
+		probe(5)
+	}
+	switch y := e.(type) {
+	case int, string:
+		_ = y
+	default:
+	}
+	switch e.(type) {
+	}
+	switch z := foo; z {
+	case 1, 2:
+		fallthrough
+	case 3:
+	default:
+		break
+	}
+	switch {
+	case foo > 1:
+		va = 1
+		vb = 2
+	}
+	ch := make(chan int, 1)
+	select {
+	case ch <- 1:
+	case v := <-ch:
+		_ = v
+		va = 1
+		vb = 2
+	default:
+	}
+L:
+	for i := 0; i < 3; i++ {
+		for k, v := range ss {
+			_, _ = k, v
+			continue L
+		}
+		for range ss {
+		}
+		goto M
+	}
+M:
+	;
+	go func() { defer fmt.Println(str.ToUpper("a")) }()
+	{
+		const local = false
+		if local {
+			n = 3
+			probe(6)
+		}
+		type T2 struct{ a int }
+		var _ = T2{a: 1}
+		var q1 int
+		var q2 int
+		_, _ = q1, q2
+	}
+	func(a ...int) {}(1, 2)
+	_ = func() (int, string) { return 1, "" }
+	for {
+		break
+	}
+	return n, nil
+}
+`
